@@ -24,7 +24,7 @@ ID = "C16"
 LEVEL = "fault_enumeration"
 RULE = ("systematic product {child behaviour} x {exit path} x {moment} x {entry point} with fixed parameters, plus seeded scenarios with "
         "random latencies/instants/second cancellation; non-trivial = the child misbehaved or the exit was not the plain normal path")
-PROBES = ["requests_parked_behind_full_outgoing_queue_when_child_died", "exit_with_more_unread_output_than_reader_buffers", "child_state_checked_at_instant_of_exit", "client_object_reused", "exit_under_cancel_scope", "exit_under_task_cancel", "exit_under_fail_after", "exit_by_exception", "sigterm_ignored_then_killed",
+PROBES = ["large_messages_queued_at_exit", "requests_parked_behind_full_outgoing_queue_when_child_died", "exit_with_more_unread_output_than_reader_buffers", "child_state_checked_at_instant_of_exit", "client_object_reused", "exit_under_cancel_scope", "exit_under_task_cancel", "exit_under_fail_after", "exit_by_exception", "sigterm_ignored_then_killed",
           "child_already_dead_at_exit", "cancel_landed_inside_aexit", "request_pending_when_child_died", "spawn_failed", "writer_blocked_at_exit",
           "flood_at_exit"]
 TIERS = {"quick": {"runs": 20000, "wall": 45.0}, "thorough": {"runs": 2000000, "wall": 560.0}}
@@ -68,7 +68,8 @@ def _child_cfg(kind, rng=None):
         c["backlog"] = r([130, 105, 160])
     if kind == "floods_then_exits":
         # writes a burst larger than the client's 100-slot incoming queue, then exits by itself
-        c["burst"] = r([400, 101, 150, 99])
+        c["burst"] = r([400, 101, 150, 99, 190])
+        c["burst_line_bytes"] = r([90, 90, 2048])   # 190 x 2 KiB: 100 messages fit the client's queue, the remaining ~180 KiB exceed the reader buffers
         c["burst_at"] = r([2, 0, 10])
         c["exit_at"] = c["burst_at"] + r([1, 0, 5, 50])
     if kind == "closes_stdout":
@@ -134,6 +135,8 @@ def generate(rng: random.Random, tier: str) -> dict:
         body = [{"op": "burst_requests", "n": 0, "timeout": rng.choice([0.5, 1.0])}] + body
     if rng.random() < 0.3:
         body = body + [{"op": rng.choice(["request", "notify", "sleep"]), "timeout": 0.5, "t": rng.choice([0, 3, 40])}]
+    if rng.random() < 0.12:
+        body = body + [{"op": "big_writes", "n": rng.choice([2, 3, 5]), "bytes": rng.choice([70_000, 100_000])}]
     sc = None
     if path == "task_cancel" and rng.random() < 0.25:
         sc = {"dt": rng.choice([0, 1, 100, 1023, 1024, 1500])}
@@ -201,7 +204,9 @@ def execute(scn: dict) -> dict:
             if ch.get("burst"):
                 def burst():
                     if child.alive and not child.out_eof:
-                        child.write_stdout([b"".join(b'{"jsonrpc":"2.0","method":"notifications/message","params":{"data":"burst-%d"}}\n' % q for q in range(ch["burst"]))])
+                        bpad = b"b" * max(0, ch.get("burst_line_bytes", 90) - 80)
+                        child.write_stdout([b"".join(b'{"jsonrpc":"2.0","method":"notifications/message","params":{"data":"burst-%d' % q + bpad + b'"}}\n'
+                                                     for q in range(ch["burst"]))])
                         sim.fault("child_output_burst_then_exit")
                 sim.at(sim.now() + ticks(ch["burst_at"]), burst, tie=0)
             if ch.get("exit_at") is not None:
@@ -294,6 +299,15 @@ def execute(scn: dict) -> dict:
                             tg.start_soon(one_request, r, w, op, name="detached-request")
                         sim.fault("outgoing_queue_backed_up_then_child_dies")
                         await anyio.sleep(ticks(ch.get("exit_at", 60)) + op["timeout"] + 1.0)
+                    elif op["op"] == "big_writes":
+                        # several large messages handed to the write stream (they stay queued if the child does not read)
+                        for q in range(op["n"]):
+                            try:
+                                w.send_nowait({"jsonrpc": "2.0", "method": "notifications/message", "params": {"q": q, "pad": "p" * op["bytes"]}})
+                            except (anyio.WouldBlock, anyio.ClosedResourceError, anyio.BrokenResourceError):
+                                pass
+                        sim.probe("large_messages_queued_at_exit")
+                        await anyio.sleep(ticks(2))
                     elif op["op"] == "sleep":
                         await anyio.sleep(ticks(op["t"]))
                     elif op["op"] == "notify":
@@ -382,12 +396,20 @@ def execute(scn: dict) -> dict:
     out = {"violations": [], "digest": sim.digest(), "isig": sim.isig(), "faults": dict(sim.faults),
            "probes": dict(sim.probes), "vtime": info.vtime, "steps": info.steps, "harness": list(sim.harness_errors),
            "nontrivial": False, "history": None}
+    def V(cls, sig, msg):
+        out["violations"].append({"cls": f"C16/{cls}", "sig": f"C16/{cls}:{sig}", "msg": msg})
+
+    # (when the cap is hit the simulator tears the run down, which may still run the body's finally: an "exit" stamped at the cap is no exit)
+    if info.limit and info.exc is None and st.get("t_body_end") is not None and (st.get("t_exit_end") is None or st["t_exit_end"] - st["t_body_end"] > 400.0):
+        # the body is over, the context was being left, and hundreds of virtual seconds later it still has not been: busy waiting
+        # (something polls forever) is a hang like any other
+        V("hang", f"{scn['exit']['path']}:{scn['child']['kind']}:busy-wait", f"leaving the context had not completed {info.vtime - st['t_body_end']:.0f} virtual seconds after the body "
+                                                                             f"ended (the simulation's time cap); the exit keeps polling for something that never happens")
+        out["history"] = {"child": scn["child"], "exit": scn["exit"], "limit": True}
+        return out
     if info.limit or info.exc is not None:
         out["harness"].append(f"run did not complete: deadlock={info.deadlock} limit={info.limit} exc={info.exc!r}")
         return out
-
-    def V(cls, sig, msg):
-        out["violations"].append({"cls": f"C16/{cls}", "sig": f"C16/{cls}:{sig}", "msg": msg})
 
     def probe(k):
         out["probes"][k] = out["probes"].get(k, 0) + 1
